@@ -75,7 +75,12 @@ class Profile:
         return [{"op": "open", "path": "a.nix", "mode": "ow", "compr": run.knobs["file_compr"],
                  "auto_ts": run.knobs["auto_ts"]}]
 
+    late_ops = ()          # op kinds held back during the build phase of a run
+    build_fraction = 0.0
+
     def op_weights(self, run):
+        if self.late_ops and run.step < self.build_fraction * run.knobs["n_ops"]:
+            return {k: (v * 0.05 if k in self.late_ops else v) for k, v in self.weights.items()}
         return self.weights
 
     def next_op(self, run):
